@@ -20,6 +20,7 @@ Good(e) ==
                             /\ (e.inst # 0 => e.inst \notin accepted)
       [] e.ev = "unrel"  -> IF e.size <= 32768 THEN e.wrote = "yes" /\ e.got = e.size /\ e.same = "yes"
                             ELSE e.wrote = "no"
+      [] e.ev = "unrelseq" -> e.intact = "yes" /\ e.extra = 0 /\ e.got <= e.wrote     \* only whole messages written on THAT tube
       [] e.ev \in {"createerr", "writeerr"} -> FALSE
       [] OTHER -> TRUE
 TInit == l = 1 /\ bad = 0 /\ typeOf = <<>> /\ accepted = {}
